@@ -54,6 +54,11 @@ func ChainConfig(fork string) (*params.ChainConfig, bool) {
 		BerlinBlock:         z(8),
 		LondonBlock:         z(9),
 	}
+	if n == 5 {
+		// Constantinople WITHOUT Petersburg (EIP-1283 net gas metering live): go-ethereum treats a nil PetersburgBlock
+		// as "Petersburg together with Constantinople", so it has to be scheduled explicitly, far in the future
+		cfg.PetersburgBlock = new(big.Int).Lsh(big.NewInt(1), 40)
+	}
 	merge := n >= 10
 	if n >= 11 {
 		cfg.ShanghaiTime = u64p(0)
@@ -83,6 +88,9 @@ type Opts struct {
 	GasPrice  *big.Int
 }
 
+// BlockNumber of every execution (all forks are scheduled at block 0): BLOCKHASH has 256 ancestors to serve
+const BlockNumber = 300
+
 var Origin = common.HexToAddress("0x00000000000000000000000000000000000a11ce")
 var Coinbase = common.HexToAddress("0x000000000000000000000000000000000000c01b")
 
@@ -103,7 +111,7 @@ func BlockContext(merge bool, transfer vm.TransferFunc) vm.BlockContext {
 		Transfer:    transfer,
 		GetHash:     func(n uint64) common.Hash { return common.BigToHash(new(big.Int).SetUint64(n + 0x1000)) },
 		Coinbase:    Coinbase,
-		BlockNumber: big.NewInt(0),
+		BlockNumber: big.NewInt(BlockNumber),
 		Time:        0,
 		Difficulty:  big.NewInt(0x20000),
 		GasLimit:    30_000_000,
